@@ -84,6 +84,240 @@ def f(n: int) -> int:
         i += 1
     return s.a + t.b
 """),
+    # "plural" programs: wherever the compiler collects a set of names (captured variables, struct fields, type
+    # parameters, leaked places, callees), there are several of them, so a hash-ordered iteration shows up as a
+    # different HUGR or a different diagnostic under another PYTHONHASHSEED (seeded change C10_m_o)
+    ("closure_capture4", """
+@guppy
+def f(alpha: int, beta: int) -> int:
+    gamma = alpha + 1
+    delta = beta * 2
+    omega = gamma - delta
+    def inner(z: int) -> int:
+        return z + omega + alpha + delta + gamma + beta
+    return inner(3)
+"""),
+    ("closure_capture_mixed_types", """
+@guppy
+def f(alpha: int, flag: bool) -> float:
+    ratio = 1.5
+    count = alpha + 1
+    def inner(z: float) -> float:
+        if flag:
+            return z + ratio
+        return z + float(count) + ratio
+    return inner(2.0)
+"""),
+    ("closure_assign_captured_err", """
+@guppy
+def f(alpha: int) -> int:
+    gamma = alpha + 1
+    delta = alpha * 2
+    omega = 5
+    def inner(z: int) -> int:
+        gamma = z + delta + omega
+        delta = gamma
+        omega = delta
+        return gamma + delta + omega
+    return inner(3)
+"""),
+    ("closure_capture_linear_err", """
+@guppy
+def f(alpha: int) -> None:
+    q1 = qubit()
+    q2 = qubit()
+    q3 = qubit()
+    def inner() -> None:
+        cx(q1, q2)
+        cx(q2, q3)
+    inner()
+    discard(q1)
+    discard(q2)
+    discard(q3)
+"""),
+    ("nested_two_closures", """
+@guppy
+def f(alpha: int, beta: int) -> int:
+    gamma = alpha + beta
+    def first(z: int) -> int:
+        return z + gamma + beta
+    def second(z: int) -> int:
+        return first(z) + alpha + gamma
+    return second(1) + first(2)
+"""),
+    ("leak_three_qubits", """
+@guppy
+def f() -> None:
+    q1 = qubit()
+    q2 = qubit()
+    q3 = qubit()
+    cx(q1, q2)
+"""),
+    ("leak_in_branches", """
+@guppy
+def f(flag: bool) -> None:
+    if flag:
+        qa = qubit()
+        qb = qubit()
+    else:
+        qc = qubit()
+        qd = qubit()
+"""),
+    ("call_graph_fanout", """
+@guppy
+def leaf1(v: int) -> int:
+    return v + 1
+
+@guppy
+def leaf2(v: int) -> int:
+    return v * 2
+
+@guppy
+def leaf3(v: int) -> int:
+    return leaf1(v) - leaf2(v)
+
+@guppy
+def mid1(v: int) -> int:
+    return leaf3(v) + leaf2(v)
+
+@guppy
+def mid2(v: int) -> int:
+    return leaf1(v) + leaf3(v)
+
+@guppy
+def f(v: int) -> int:
+    return mid2(v) + mid1(v) + leaf2(v)
+"""),
+    ("generic_three_vars", """
+T1 = guppy.type_var("T1")
+T2 = guppy.type_var("T2")
+T3 = guppy.type_var("T3")
+
+@guppy
+def pick(a1: T1, a2: T2, a3: T3) -> tuple[T3, T1, T2]:
+    return a3, a1, a2
+
+@guppy
+def f() -> int:
+    r1, r2, r3 = pick(1, 2.5, True)
+    s1, s2, s3 = pick(True, 1, 2.5)
+    return r2 + s3
+"""),
+    ("generic_unsolved_many", """
+T1 = guppy.type_var("T1")
+T2 = guppy.type_var("T2")
+T3 = guppy.type_var("T3")
+
+@guppy.declare
+def mk3() -> tuple[T1, T2, T3]: ...
+
+@guppy
+def f() -> None:
+    w1 = mk3()
+"""),
+    ("struct_fields_many", """
+@guppy.struct
+class Rec:
+    first: int
+    second: float
+    third: bool
+    fourth: int
+
+@guppy
+def f(n: int) -> int:
+    r = Rec(n, 1.5, True, 7)
+    if r.third:
+        r = Rec(r.fourth, 2.5, r.third, r.fourth)
+    else:
+        r = Rec(r.first, r.second, False, r.first)
+    return r.first + r.fourth + int(r.second)
+"""),
+    ("struct_linear_fields_leak", """
+@guppy.struct
+class Pair:
+    qa: qubit
+    qb: qubit
+    qc: qubit
+
+@guppy
+def f() -> None:
+    p = Pair(qubit(), qubit(), qubit())
+    h(p.qa)
+"""),
+    ("comprehension_captures", """
+@guppy
+def f(alpha: int, beta: int) -> int:
+    gamma = alpha - beta
+    vals = array(alpha * i + beta - gamma for i in range(4))
+    return vals[0] + vals[3]
+"""),
+    ("with_control_captures", """
+@guppy
+def f() -> None:
+    c1 = qubit()
+    c2 = qubit()
+    t1 = qubit()
+    t2 = qubit()
+    with control(c1, c2):
+        cx(t1, t2)
+        h(t2)
+        cx(t2, t1)
+    discard(c1)
+    discard(c2)
+    discard(t1)
+    discard(t2)
+"""),
+    ("with_dagger_captures", """
+@guppy
+def f(theta: angle) -> None:
+    t1 = qubit()
+    t2 = qubit()
+    t3 = qubit()
+    with dagger:
+        rz(t1, theta)
+        cx(t1, t2)
+        cx(t3, t1)
+    discard(t1)
+    discard(t2)
+    discard(t3)
+"""),
+    ("two_arg_type_errors", """
+@guppy
+def g3(a1: int, a2: bool, a3: float) -> int:
+    return a1
+
+@guppy
+def f() -> int:
+    return g3(1.5, 2, True)
+"""),
+    ("many_live_loop", """
+@guppy
+def f(n: int) -> int:
+    aa = 1
+    bb = 2
+    cc = 3
+    dd = 4
+    ee = 5
+    i = 0
+    while i < n:
+        aa, bb, cc, dd, ee = bb, cc, dd, ee, aa
+        if aa > cc:
+            dd += 1
+        else:
+            ee += bb
+        i += 1
+    return aa + bb + cc + dd + ee
+"""),
+    ("maybe_undefined_many", """
+@guppy
+def f(flag: bool, other: bool) -> int:
+    if flag:
+        v1 = 1
+        v2 = 2
+    if other:
+        v3 = 3
+    return v3 + v2 + v1
+"""),
 ]
 
 
@@ -113,6 +347,16 @@ class VecSched:
         return cs[(rank - 1) % len(cs)]
 
 
+def canon_sha(pkg):
+    """sha of the textual HUGR with session-global definition ids (`__WithBlock__(DefId(id=N))` titles) renumbered by
+    first appearance: the only thing a compile in a long-lived worker may legitimately differ in from a compile in
+    a fresh process (C11: "up to the numbering of generated symbol names"). Used only for the hooks-on/hooks-off
+    cross-check below; the verdicts themselves compare the exact bytes between like-for-like runs."""
+    ids = {}
+    text = re.sub(r"DefId\(id=(\d+)\)", lambda m: "DefId(id=#%d)" % ids.setdefault(m.group(1), len(ids)), pkg.to_str())
+    return hashlib.sha256(text.encode()).hexdigest()
+
+
 def _compile_one(job):
     """Runs in a forked child with pristine compiler state."""
     import gp  # noqa: F401
@@ -140,7 +384,7 @@ def _compile_one(job):
         try:
             d = getattr(mod, entry)
             pkg = d.compile_function()
-            out = {"status": "ok", "sha": hashlib.sha256(pkg.to_bytes()).hexdigest()}
+            out = {"status": "ok", "sha": hashlib.sha256(pkg.to_bytes()).hexdigest(), "csha": canon_sha(pkg)}
         except GuppyError as e:
             try:
                 out = {"status": "rejected", "text": re.sub(r"<verif:[^>]*>", "<src>", runner.render_error(e))}
@@ -190,7 +434,9 @@ for name, src in progs:
         mod = gp.load(src, name="c10prog")
         try:
             pkg = getattr(mod, "f").compile_function()
-            out[name] = ["ok", hashlib.sha256(pkg.to_bytes()).hexdigest()]
+            ids = {}
+            canon = re.sub(r"DefId\(id=(\d+)\)", lambda m: "DefId(id=#%%d)" %% ids.setdefault(m.group(1), len(ids)), pkg.to_str())
+            out[name] = ["ok", hashlib.sha256(pkg.to_bytes()).hexdigest(), hashlib.sha256(canon.encode()).hexdigest()]
         except GuppyError as e:
             out[name] = ["rejected", re.sub(r"<verif:[^>]*>", "<src>", runner.render_error(e))]
         except Exception as e:
@@ -293,7 +539,7 @@ def run(ctx):
         if n in unstable:
             continue   # already reported as hash-seed dependent; nothing to compare against
         if o and o[0] in ("ok", "rejected") and r["status"] in ("ok", "rejected"):
-            if (o[0], o[1]) != (r["status"], r.get("sha") or r.get("text")):
+            if (o[0], o[2] if o[0] == "ok" else o[1]) != (r["status"], r.get("csha") or r.get("text")):
                 raise lib.Machinery(f"hooks change the compiler's output for {n}: {o[0]} vs {r['status']}")
     # ---- (3) model: evidence depends on visiting order ------------------------------------------
     import C09 as c09
